@@ -227,6 +227,7 @@ CHECKS["C09"] = dict(
 
 CHECKS["C01"] = dict(
     src="harness/C01_paths.cpp",
+    also=["C01B"],
     cases=dict(quick=3000, thorough=40000),
     rule="(filled below)",
     technique="property-based testing: generated planning problems per planner, independent path re-validation oracle, one forked process per case",
@@ -457,6 +458,12 @@ CHECKS["C03C"] = dict(
     registered=False,
     cases=dict(quick=1500, thorough=20000),
     rule="companion of C03", technique="", level_text="", level_note="",
+)
+CHECKS["C01B"] = dict(
+    src="harness/C01B_bespoke.cpp",
+    registered=False,
+    cases=dict(quick=1200, thorough=16000),
+    rule="companion of C01", technique="", level_text="", level_note="",
 )
 CHECKS["C19P"] = dict(
     src="harness/C01_paths.cpp",
